@@ -105,6 +105,7 @@ type Oblig struct {
 	Pos     token.Position
 	Expr    string
 	Smoke   bool // expected: NOT unsat
+	Before  *cons // call-site probe: the assumptions before the call (a path that was dead already is not the call's fault)
 	decls   *Ctx
 	lemmaFile string
 	// results
@@ -178,6 +179,7 @@ type Ctx struct {
 	loopWrites  map[int]map[string]bool // heap keys written by each loop (dry run), by loop ordinal
 	watchKeys   map[string]bool         // heap keys whose reads are being watched (postconditions over keys a callee hides)
 	watchHit    bool
+	spawned     map[string]bool // callee names started with `go` in this function (for spawnonly clauses)
 	lastNfRefs  map[string][]string     // per base key: pre-existing objects the last discovered loop writes, if all are loop-invariant terms
 	lastNfVague map[string]bool         // keys / prefixes for which the objects written are not all known loop-invariant terms
 	loopHavoc   bool
